@@ -98,9 +98,10 @@ def ser(v, depth=0):
         return "table"
     cname = type(v).__name__
     if cname == "Xray":
-        # the scattering-factor table of one fixed element (Co) is part of the served value
+        # the scattering-factor table of one fixed element (Co) and of the neutron (which has none, but whose file name
+        # n.nff would collide with nitrogen's on a case-insensitive key) is part of the served value
         tab = ""
-        if atom_key(v.element).startswith("27-"):
+        if atom_key(v.element).startswith(("27-", "0-")):
             try:
                 t = v.sftable
                 tab = "," + h(t.tobytes()) if t is not None else ",notable"
@@ -321,7 +322,7 @@ def do_calc(c):
     if c == "atom_sld":
         return ser(P.Co.neutron.sld())
     if c == "xray_sld":
-        return ser(P.xray_sld("CoSiO2", density=2.2, energy=8.0))
+        return ser(P.xray_sld("CoSi3N4O", density=2.2, energy=8.0))
     if c == "f0":
         return ser(P.Co.xray.f0(0.5))
     if c == "volume":
